@@ -3,6 +3,7 @@ import collections
 import gc
 import itertools
 import random
+import sys
 import weakref
 
 from vf import import_desper
@@ -65,10 +66,15 @@ def enum_cases(maxk):
 
 
 def gen_cases(tier, seed):
-    for case in enum_cases(3 if tier == 'quick' else 4):
+    for n, case in enumerate(enum_cases(3 if tier == 'quick' else 4)):
         yield case
         # the same, but the event is deferred and released by enabling
         yield dict(case, flush=True)
+        if n % 4 == 0 and case['owner'] == 'bare':
+            # every handler registered twice before anything is dropped
+            yield dict(case, twice=True)
+    for k in (1, 2, 3):
+        yield {'mode': 'slots', 'k': k}
     n = 300 if tier == 'quick' else 16 * 1500
     for i in range(n):
         rng = random.Random(f'C10/{seed}/{tier}/{i}')
@@ -81,10 +87,77 @@ def gen_cases(tier, seed):
                           'victim': rng.randrange(k),
                           'how': rng.choice(HOWS[owner])})
         yield {'k': k, 'hashes': hashes, 'owner': owner, 'drops': drops,
-               'flush': rng.random() < 0.4}
+               'flush': rng.random() < 0.4,
+               'twice': owner == 'bare' and rng.random() < 0.3}
+
+
+def run_slots(case):
+    """Handlers that cannot be weakly referenced: the dispatcher may refuse
+    them (TypeError) but may not keep them alive."""
+    desper = import_desper()
+    res = Res()
+    alive = [0]
+    got = []
+
+    class Slotted:
+        __slots__ = ('uid',)
+
+        def __init__(self, uid):
+            self.uid = uid
+            alive[0] += 1
+
+        def __del__(self):
+            alive[0] -= 1
+
+        def on_ev(self, token):
+            got.append((self.uid, token))
+    Slotted = desper.event_handler(ev='on_ev')(Slotted)
+    d = desper.EventDispatcher()
+    accepted = 0
+    for uid in range(case['k']):
+        obj = Slotted(uid)
+        try:
+            d.add_handler(obj)
+            accepted += 1
+        except TypeError:
+            res.tags['non_weakrefable'].add('refused')
+        del obj
+    gc.collect()
+    res.stats['dispatches_checked'] += 1
+    try:
+        d.dispatch('ev', 1)
+    except Exception as ex:
+        res.div(1, 'operation-raised', f'{type(ex).__name__}: {ex}',
+                'no exception', repr(ex))
+    if alive[0] or got:
+        res.div(1, 'handler-kept-alive', 'handlers that cannot be weakly '
+                'referenced are kept alive by the dispatcher after the '
+                'program dropped them', 'released (or refused)',
+                {'alive': alive[0], 'called': got, 'accepted': accepted})
+    res.nontrivial = True
+    res.sample = {'mode': 'slots', 'accepted': accepted}
+    return res
 
 
 def run_case(case):
+    if case.get('mode') == 'slots':
+        return run_slots(case)
+    unraisable = []
+    old_hook = sys.unraisablehook
+    sys.unraisablehook = lambda u: unraisable.append(
+        f'{type(u.exc_value).__name__}: {u.exc_value} in {u.object!r}')
+    try:
+        res = _run_case(case)
+    finally:
+        sys.unraisablehook = old_hook
+    if unraisable and not res.divs:
+        res.div(2, 'unraisable-in-cleanup', 'an exception was swallowed '
+                'inside the clean-up that runs when a handler is collected',
+                'no exception', unraisable[:3])
+    return res
+
+
+def _run_case(case):
     desper = import_desper()
     res = Res()
     k = case['k']
@@ -165,6 +238,9 @@ def run_case(case):
             if owner == 'bare':
                 strong[uid] = obj
                 d.add_handler(obj)
+                if case.get('twice'):
+                    d.add_handler(obj)
+                    res.tags['registered_twice'].add(True)
             elif owner == 'comp':
                 entity_of[uid] = w.create_entity(obj)
             else:
